@@ -1035,6 +1035,7 @@ func init() {
 			case "crowded":
 				d.G.SetWeight(tx.TypeDeclareCandidacy, 120)
 				blocks = 60
+				d.PByz = 0.06 // evidence against a validator while more than 100 candidates exist (seed C17-m1)
 			case "bigset":
 				blocks = 48
 			case "slots", "slots-genesis":
